@@ -161,6 +161,11 @@ class Env:
     def count_call(self, op, operand, factors):
         """Reach counters per decomposition: pending 3-cycles on the operand; negative axis arguments per position on the factors."""
         c = self.ctx
+        c.count("input_unchanged_checked")
+        changed = operand.input_changed()
+        if changed:
+            c.violation(f"{op}:input-changed", f"{op}: the factors are to reproduce the input the caller holds, but after the call the "
+                        f"{changed}", {"op": op, "sym": self.sym, "operand": operand.info, "tensor": operand.ht.desc()})
         if F.pending_noninvolutive(operand.y):
             c.count(f"lazy_3cycle:{op}")
             if self.uniform_legs:
